@@ -4,6 +4,7 @@
      R  run one pending worker hand-off (which one: symbolic)
      S  dispatch_suspend   r dispatch_resume   A dispatch_activate      (C06)
      X  dispatch_release of the client's reference to the queue        (C17; only as last queue op)
+     Z  dispatch_queue_set_width(queue, 3) on a concurrent queue (C04: the width bookkeeping of a drain in progress must follow the change)
      T  dispatch_set_target_queue(top queue, serial queue 1) on the ACTIVE top queue (INDEP configuration)   (C03)
    A letter may be followed by a digit naming the queue it addresses: 0 = top queue (default), 1 = its target queue (only with CHAIN), 2 = a sibling queue
    targeting the same bottom queue (only with FANIN).
@@ -129,6 +130,7 @@ static void do_op(int s, int thread) {
   else if (c == 'r') { ASSERT(suspend_cnt[qi] > 0, "sequence resumes a queue that is not suspended (driver must not generate this)"); suspend_cnt[qi]--; dispatch_resume(q); }
   else if (c == 'A') { inactive[qi] = 0; dispatch_activate(q); }
   else if (c == 'T') { ASSERT(nq == 3 && qi == 0, "retarget op needs the INDEP configuration"); dispatch_set_target_queue(Q[0], Q[1]); retargeted = 1; }   /* retarget the ACTIVE top queue onto the serial queue Q[1] */
+  else if (c == 'Z') { ASSERT(q_conc[qi], "set_width op needs a concurrent queue"); dispatch_queue_set_width(q, 3); }   /* change the width of the (possibly busy) concurrent queue: applied inline when idle, else by a queued barrier */
   else if (c == 'X') { ASSERT(!released[qi], "sequence releases a queue twice (driver must not generate this)"); released[qi] = 1; dispatch_release(q); }
   else ASSERT(0, "unknown op letter");
   ir_cur = me;
